@@ -28,6 +28,8 @@ extern "C" int LLVMFuzzerTestOneInput(const uint8_t *data, size_t size)
       for (int i = 0; i < n; ++i) {
         c15::Val v;
         v.tag = fdp.ConsumeIntegralInRange<int>(0, c15::T_NTAGS - 1);
+        if (v.tag == c15::T_LONG_STRING && i > 1)
+          v.tag = c15::T_STRING;  // at most two 64 KiB strings per fuzz case (speed)
         v.n = fdp.ConsumeIntegralInRange<long long>(-100000, 100000);
         v.s = fdp.ConsumeRandomLengthString(24);
         int m = fdp.ConsumeIntegralInRange<int>(0, 40);
